@@ -1,1 +1,92 @@
-harnesses! {}
+//! C14 — validation (PARTIAL: ring-level units through the hooks and the fixed-size types;
+//! ring-vs-ring and member-vs-member clauses go through relate and are not admitted; `is_valid`
+//! itself cannot be compiled by Kani 0.68).  `f32` + S-ORIENT.
+use crate::gen::*;
+use crate::oracle::*;
+use crate::Src;
+use geo::algorithm::validation::kani_hooks as vh;
+use geo::Validation;
+use geo_types::{coord, Coord, Line, Point, Rect, Triangle};
+
+/// ring-level acceptance of a closed 3-ring: accepted iff it is a simple closed curve enclosing
+/// area.  `collinear`: Some(false) excludes / Some(true) selects the class of the listed finding.
+pub fn ring3<S: Src>(s: &mut S, n: i8, collinear: Option<bool>) {
+    let (a, b, c) = (gp(s, n), gp(s, n), gp(s, n));
+    let cls = crate::known::ring_all_vertices_collinear_and_distinct(a, b, c);
+    if let Some(k) = collinear {
+        vassume!(cls == k);
+    }
+    let ring = ls_f(&[a, b, c, a]);
+    let few = vh::check_too_few_points(&ring, true);
+    let selfx = vh::linestring_has_self_intersection(&ring);
+    // fewer than 4 coordinates after dropping repeated consecutive points
+    let distinct = (a != b) as u8 + (b != c) as u8 + (c != a) as u8;
+    assert!(few == (distinct < 3), "check_too_few_points differs from 'fewer than 4 coordinates after removing repeats'");
+    let ok = a != b && b != c && c != a && orient(a, b, c) != 0;
+    assert!((!few && !selfx) == ok, "ring-level validation does not accept exactly the simple rings enclosing area");
+    if collinear != Some(true) {
+        vcover!(ok, "valid ring");
+        vcover!(few, "ring with a repeated vertex");
+    }
+    if collinear != Some(false) {
+        vcover!(cls, "three distinct collinear vertices");
+    }
+    core::mem::forget(ring);
+}
+
+/// closed 4-rings: self-intersection detection against the exact simple-ring test
+pub fn ring4<S: Src>(s: &mut S, n: i8) {
+    let (a, b, c, d) = (gp(s, n), gp(s, n), gp(s, n), gp(s, n));
+    vassume!(a != b && b != c && c != d && d != a); // no repeated consecutive points
+    // exclude the listed finding's class (zero-area rings whose overlapping edges are adjacent)
+    vassume!(!(orient(a, b, c) == 0 && orient(b, c, d) == 0));
+    vassume!(orient(a, b, c) != 0 && orient(b, c, d) != 0 && orient(c, d, a) != 0 && orient(d, a, b) != 0);
+    let pts = [a, b, c, d, a];
+    let ring = ls_f(&pts);
+    let selfx = vh::linestring_has_self_intersection(&ring);
+    assert!(!vh::check_too_few_points(&ring, true), "4 distinct consecutive vertices reported as too few");
+    assert!(selfx == !ring_is_simple(&pts), "linestring_has_self_intersection differs from the exact simple-ring test");
+    vcover!(selfx, "bow tie");
+    vcover!(!selfx && orient(a, b, c) * orient(b, c, d) < 0, "valid concave quadrilateral");
+    core::mem::forget(ring);
+}
+
+/// fixed-size types: errors exactly for non-finite coordinates and the documented degeneracies
+pub fn simple_types<S: Src>(s: &mut S) {
+    let (x, y) = (s.f32(), s.f32());
+    let a = gp(s, 2);
+    let c: Coord<f32> = coord! {x: x, y: y};
+    let fin = x.is_finite() && y.is_finite();
+    assert!(vh::check_coord_is_not_finite(&c) == !fin, "check_coord_is_not_finite");
+    let p = Point(c);
+    assert!(p.validation_errors().is_empty() == fin, "Point validation: errors exactly for non-finite coordinates");
+    let l = Line::new(c, cf(a));
+    assert!(l.validation_errors().is_empty() == (fin && c != cf(a)), "Line validation: errors exactly for non-finite or identical coordinates");
+    let r = Rect::new(cf(a), cf((a.0 + 1, a.1 + 1)));
+    assert!(r.validation_errors().is_empty(), "a finite Rect must be valid");
+    vcover!(x.is_nan(), "NaN coordinate");
+    vcover!(x.is_infinite() && y.is_finite(), "one infinite coordinate");
+    vcover!(fin && c == cf(a), "identical line end points");
+}
+
+pub fn triangle_valid<S: Src>(s: &mut S, n: i8) {
+    let (a, b, c) = (gp(s, n), gp(s, n), gp(s, n));
+    let t = Triangle(cf(a), cf(b), cf(c));
+    let e = t.validation_errors();
+    assert!(e.is_empty() == (orient(a, b, c) != 0), "Triangle validation: valid exactly when the vertices are not collinear");
+    vcover!(a == b && b != c, "two identical vertices");
+    vcover!(orient(a, b, c) == 0 && a != b && b != c && a != c, "collinear distinct vertices");
+    core::mem::forget(e);
+}
+
+harnesses! {
+    #[kani::unwind(7)] #[kani::stub(robust::orient2d, crate::stubs::orient2d_small)] fn c14_ring3_g2(s) { ring3(s, 2, Some(false)) }
+    #[kani::unwind(7)] #[kani::stub(robust::orient2d, crate::stubs::orient2d_small)] fn c14_ring3_g2_kf_collinear(s) { ring3(s, 2, Some(true)) }
+    #[kani::unwind(8)] #[kani::stub(robust::orient2d, crate::stubs::orient2d_small)] fn c14_ring4_g1(s) { ring4(s, 1) }
+    #[kani::unwind(5)] fn c14_simple_types(s) { simple_types(s) }
+    #[kani::unwind(5)] #[kani::stub(robust::orient2d, crate::stubs::orient2d_small)] fn c14_triangle_g2(s) { triangle_valid(s, 2) }
+    #[kani::unwind(7)] #[kani::stub(robust::orient2d, crate::stubs::orient2d_small)] fn c14_sanity_must_fail(s) {
+        ring3(s, 1, None);
+        assert!(false, "sanity twin reached its end");
+    }
+}
